@@ -7,7 +7,13 @@ formula is sampled against the real calculator), independent of the Lean model:
   sign       : every set-point has the sign of the request or is zero;
   remainder  : the remainder has the request's sign and does not exceed it in magnitude;
   reported-vs-commanded : `BatteryManager._distribute_power` (fake API client) reports as succeeded exactly the
-               power of the `set_power` calls that succeeded.
+               power of the `set_power` calls that succeeded;
+  commanded-plus-excess : the sum clause observed at the manager: the power of ALL `set_power` calls it made plus the
+               excess it reports = request — for `Request.adjust_power` True and False (False only where the real
+               `_check_request` forwards the request: inside the inclusion bounds the remainder can still be
+               non-zero, e.g. a battery at its SoC limit), with and without scripted `set_power` failures.
+Sequences of 2-4 calls on ONE algorithm instance (data of some components changed in between, unchanged components
+keep their timestamps): every call is checked with the clauses above against the data of that call.
 Correspondence: the same case through the Lean driver — every set-point, the remainder, the regime tags, the
 domain predicates and the manager's report arithmetic must be equal.
 """
